@@ -44,11 +44,11 @@ Definition init_ops (c : option reason) : list cop :=
   match c with None => [] | Some r => [CCancel r] end.
 
 (* ---- observable outcome of one execution ---- *)
-Inductive sres := ROk | RErr | RCancelled (r : reason) | RDiverge.
+Inductive sres := ROk | RErr | RCancelled (r : reason) | RDiverge | RRead.
 
 Definition sres_eqb (a b : sres) : bool :=
   match a, b with
-  | ROk, ROk | RErr, RErr | RDiverge, RDiverge => true
+  | ROk, ROk | RErr, RErr | RDiverge, RDiverge | RRead, RRead => true
   | RCancelled x, RCancelled y => x =? y
   | _, _ => false
   end.
@@ -95,17 +95,24 @@ Fixpoint spec_exec (limit : N) (prog : list sinstr) (ops : list cop) (steps nlog
           end
   end.
 
-(* a thread's life as the harness scripts it *)
-Inductive lev := LCancel (r : reason) | LUncancel | LExec (prog : list sinstr).
+(* a thread's life as the harness scripts it.  SetMaxExecutionSteps changes the
+   limit and nothing else: in particular it is not an operation on the
+   cancellation state (first_reason does not see it).  A limit of 0 means "none"
+   until the thread's first execution; set to 0 afterwards it is an ordinary
+   limit that every step count has reached. *)
+Inductive lev := LCancel (r : reason) | LUncancel | LSetMax (n : N) | LRead | LExec (prog : list sinstr).
 
-Fixpoint spec_life (limit : N) (evs : list lev) (ops : list cop) (steps : N) : list sobs :=
+Fixpoint spec_life (limit : N) (started : bool) (evs : list lev) (ops : list cop) (steps : N) : list sobs :=
   match evs with
   | [] => []
-  | LCancel r :: rest => spec_life limit rest (ops ++ [CCancel r]) steps
-  | LUncancel :: rest => spec_life limit rest (ops ++ [CUncancel]) steps
+  | LCancel r :: rest => spec_life limit started rest (ops ++ [CCancel r]) steps
+  | LUncancel :: rest => spec_life limit started rest (ops ++ [CUncancel]) steps
+  | LSetMax n :: rest => spec_life n started rest ops steps
+  | LRead :: rest => mkObs RRead steps 0 :: spec_life limit started rest ops steps
   | LExec prog :: rest =>
-      match spec_exec limit prog ops steps 0 with
-      | (r, steps', nlog, ops') => mkObs r steps' nlog :: spec_life limit rest ops' steps'
+      let limit' := if negb started && (limit =? 0) then max_uint64 else limit in
+      match spec_exec limit' prog ops steps 0 with
+      | (r, steps', nlog, ops') => mkObs r steps' nlog :: spec_life limit' true rest ops' steps'
       end
   end.
 
